@@ -277,6 +277,35 @@ def _recheck(F, ent):
                     if strip_generics(callee_name(t) or "").endswith(req["callee"]):
                         return True, "%s calls %s" % (req["fn"], req["callee"])
         return False, "%s no longer calls %s" % (req["fn"], req["callee"])
+    if kind == "fn_calls_every_iteration":
+        # `fn` calls `callee` inside a loop, and no iteration can go round (or leave normally through the loop) without the call
+        from ..cfg import natural_loops, find_path, err_blocks
+        fns = [f for f in F.fns.values() if strip_generics(f.name) == req["fn"]]
+        if len(fns) != 1:
+            return False, "function %s: %d matches" % (req["fn"], len(fns))
+        f = fns[0]
+        calls = [bi for bi, t in f.calls() if strip_generics(callee_name(t) or "").endswith(req["callee"])]
+        if not calls:
+            return False, "%s no longer calls %s" % (req["fn"], req["callee"])
+        loops = natural_loops(f)
+        for header, body in loops.items() if isinstance(loops, dict) else loops:
+            if not any(c in body for c in calls):
+                continue
+            # per-element entry: the Some arm of the iterator `next` in the header region
+            starts = []
+            for b in body:
+                tt = f.blocks[b]["t"]
+                if tt["k"] == "switch":
+                    m = dict(tt["ts"])
+                    if 1 in m and m[1] in body and (0 in m and m[0] not in body or tt["else"] not in body):
+                        starts.append(m[1])
+            if not starts:
+                continue
+            path = find_path(f, starts, lambda x: x == header, blocked=set(calls) | err_blocks(f) | {b for b in range(len(f.blocks)) if b not in body})
+            if path:
+                return False, "an iteration of the rebuild loop in %s can skip %s (%s)" % (req["fn"], req["callee"], " -> ".join("bb%d" % b for b in path[:6]))
+            return True, "%s calls %s on every iteration of its rebuild loop" % (req["fn"], req["callee"])
+        return False, "%s does not call %s inside a loop" % (req["fn"], req["callee"])
     if kind == "only_written_in":
         # field (adt, name) is stored / aggregated only in the listed functions
         adt, name = req["adt"], req["field"]
@@ -490,8 +519,43 @@ def r8_5(F, R):
             R.ok("R8.5", inst, "yield blocks %d, fetch blocks %d; no bypass" % (len(yields), len(fetch)), fn.loc(t), how="path")
 
 
+def r8_6(F, R):
+    from ..dataflow import Flow, origin_calls
+    R.rule("R8.6", "macros are de-duplicated by identity: in SerializableMap::new a table that maps to an index into `macros` (a HashMap<usize, usize> "
+                   "probed with entry/get/insert) is keyed by the address of the macro's Rc (Rc::as_ptr); keyed by the control-sequence name, "
+                   "the shadowing definitions of a name that is redefined inside an open group all collapse onto the outermost one")
+    fn = [f for f in F.fns.values() if strip_generics(f.name) == "texlang::command::map::SerializableMap::new"]
+    if len(fn) != 1:
+        raise AnchorError("R8.6: SerializableMap::new: %d matches" % len(fn))
+    fn = fn[0]
+    probes = []
+    bodies = [fn] + [g for g in F.fns.values() if g.name.startswith(fn.name + "::{closure")]
+    for g in bodies:
+        flow = None
+        for bi, t in g.calls():
+            n = strip_generics(callee_name(t) or "")
+            if n.split("::")[-1] in ("entry", "get", "insert", "contains_key", "get_mut") and "HashMap" in n and len(t["args"]) >= 2:
+                p = t["args"][0].get("cp") or t["args"][0].get("mv")
+                ty = g.local_ty(p["l"]) if p is not None else ""
+                if "HashMap<usize, usize" in ty:
+                    flow = flow or Flow(g)
+                    probes.append((g, t, origin_calls(flow.operand_origins(t["args"][1]))))
+    loc = "%s:%d" % (fn.file, fn.line)
+    if not probes:
+        R.ok("R8.6", "SerializableMap::new", "no index de-duplication table", loc, how="def-use")
+        return
+    bad = [(g, t, oc) for g, t, oc in probes if not any(x.endswith("::as_ptr") for x in oc)]
+    if bad:
+        g, t, oc = bad[0]
+        R.violation("R8.6", "SerializableMap::new/dedup-key", "the macro de-duplication table in SerializableMap::new is probed with a key that does not derive from "
+                    "Rc::as_ptr of the macro (origins: %s)" % sorted(x.split("::")[-1] for x in oc)[:6], g.loc(t))
+    else:
+        R.ok("R8.6", "SerializableMap::new", "%d probe(s) keyed by Rc::as_ptr" % len(probes), loc, how="def-use")
+
+
 def run(F, R, tier):
     r8_1(F, R, tier)
+    r8_6(F, R)
     r8_4(F, R)
     r8_5(F, R)
     r8_2(F, R)
